@@ -292,7 +292,7 @@ def _c10_extra(seed, quick):
 
 def _c16_extra(seed, quick):
     # counters are bumped from many client threads at once: the identities are re-evaluated at the quiescent point of concurrent runs
-    return conc_shards("C16", seed, "mixed", 25 if quick else 500, 40 if quick else 400, shards=4) + conc_shards("C16", seed, "fanout", 30 if quick else 3000, 40 if quick else 400, shards=1)
+    return conc_shards("C16", seed, "mixed", 25 if quick else 500, 40 if quick else 400, shards=4) + conc_shards("C16", seed, "fanout", 30 if quick else 3000, 40 if quick else 400, shards=1) + conc_shards("C16", seed, "ack-stats", 8 if quick else 400, 40 if quick else 400, shards=1)
 
 
 def _c17_extra(seed, quick):
